@@ -1,4 +1,365 @@
-import Compio.Model.SyncStream
-import Compio.Model.PollAdapter
+/-
+C12 — blocking-style (`SyncStream`) and poll-style (`AsyncStream`) adapters are lossless FIFO pipes.
+Property theorems only (helper lemmas live in Compio/Lemmas/SyncStream.lean, Lemmas/PollAdapter.lean).
+Every statement quantifies over all configurations (base capacity, size limit), all scripts of the
+inner stream (data / short / Pending / error / end of stream) and all operation lists.
+-/
+import Compio.Lemmas.SyncStream
+import Compio.Lemmas.PollAdapter
+
 namespace Compio.Props.C12
+open Compio Compio.SyncStream
+
+/-! ## 1. `SyncStream` -/
+
+/-- **Read side, nothing lost / duplicated / reordered.** After any sequence of operations, what
+the caller received (concatenation of everything `read` / `read_buf_uninit` / `consume` handed
+out) followed by what is still buffered is exactly what the inner stream delivered, and that in
+turn is a prefix of the inner stream's content (the rest is still in its script). -/
+theorem sync_read_fifo (base max : Nat) (rs : List RItem) (ws : List WItem) (ops : List Op) :
+    takenOf ops (run (State.new base max rs ws) ops).2 ++ (run (State.new base max rs ws) ops).1.r.buf.avail = (run (State.new base max rs ws) ops).1.r.delivered ∧
+    (run (State.new base max rs ws) ops).1.r.delivered ++ (if (run (State.new base max rs ws) ops).1.r.innerEof then [] else content (run (State.new base max rs ws) ops).1.r.script) = content rs := by
+  have hi := (Inv.new base max rs ws).run ops
+  have hf := run_frame ops (State.new base max rs ws)
+  refine ⟨?_, hi.1.cons⟩
+  rw [hi.1.fifo, hf.1]
+  simp [State.new, RSide.new]
+
+/-- the bytes returned so far are a prefix of the inner stream -/
+theorem sync_read_prefix (base max : Nat) (rs : List RItem) (ws : List WItem) (ops : List Op) :
+    takenOf ops (run (State.new base max rs ws) ops).2 <+: content rs := by
+  have h := sync_read_fifo base max rs ws ops
+  rw [← h.2, ← h.1]
+  simp only [List.append_assoc]
+  exact List.prefix_append _ _
+
+/-- **At end of file everything has been returned.** With a positive base capacity: once the
+adapter's EOF flag is set and its buffer drained (the only situation in which `read` returns
+`Ok(0)` / `fill_buf` an empty slice, see `sync_eof_report`), the bytes returned are the whole
+inner stream. (For `base_capacity = 0` this fails: `Cex.C12.sync_base0_spurious_eof_counterexample`.) -/
+theorem sync_read_eof_complete (base max : Nat) (rs : List RItem) (ws : List WItem) (ops : List Op)
+    (hb : 0 < base) :
+    (run (State.new base max rs ws) ops).1.r.eof = true → (run (State.new base max rs ws) ops).1.r.buf.avail = [] → takenOf ops (run (State.new base max rs ws) ops).2 = content rs := by
+  intro he ha
+  have hi := (Inv.new base max rs ws).run ops
+  have hf := run_frame ops (State.new base max rs ws)
+  have h := sync_read_fifo base max rs ws ops
+  have hbase : (run (State.new base max rs ws) ops).1.r.base = base := by rw [hf.2.2.1]; rfl
+  have hie := hi.1.eof_inner (by rw [hbase]; exact hb) he
+  rw [← h.2, ← h.1, ha, hie]
+  simp
+
+/-- the adapter's EOF flag is only ever set by a genuine end-of-stream report of the inner reader
+(guard: positive base capacity) -/
+theorem sync_eof_genuine (base max : Nat) (rs : List RItem) (ws : List WItem) (ops : List Op) (hb : 0 < base) :
+    (run (State.new base max rs ws) ops).1.r.eof = true → (run (State.new base max rs ws) ops).1.r.innerEof = true := by
+  intro he
+  have hi := (Inv.new base max rs ws).run ops
+  have hf := run_frame ops (State.new base max rs ws)
+  exact hi.1.eof_inner (by rw [hf.2.2.1]; exact hb) he
+
+/-- when does the adapter report EOF to its caller: `read` into a non-empty buffer returning
+`Ok(0)`, or `fill_buf` returning an empty slice, happens only with the EOF flag set and nothing buffered -/
+theorem sync_eof_report (s : State) (n : Nat) (s' : State) :
+    (step s (.read n) = (s', .bytes []) → 0 < n → s.r.buf.avail = [] ∧ s.r.eof = true) ∧
+    (step s .fillbuf = (s', .bytes []) → s.r.buf.avail = [] ∧ s.r.eof = true) := by
+  constructor
+  · intro h hn
+    unfold SyncStream.step at h
+    simp only at h
+    split at h
+    · simp at h
+    · unfold RSide.read RSide.fillBuf at h
+      simp only [RSide.clearObs] at h
+      by_cases hl : s.r.buf.lent = true
+      · simp [hl, Out.ofBytes] at h
+      · have hl' : s.r.buf.lent = false := by simpa using hl
+        by_cases hw : (s.r.buf.avail.isEmpty && !s.r.eof) = true
+        · simp [hl', hw, Out.ofBytes] at h
+        · simp only [hl', hw, if_false, Bool.false_eq_true] at h
+          have hav : s.r.buf.avail = [] := by
+            by_cases h1 : s.r.buf.cap < s.r.buf.pos + min s.r.buf.avail.length n
+            · rw [RSide.consume_panic (by simpa using hl') (by simpa using h1)] at h
+              simp [Out.ofBytes] at h
+            · by_cases h2 : s.r.buf.data.length < s.r.buf.pos + min s.r.buf.avail.length n
+              · rw [RSide.consume_lost (by simpa using hl') (by simpa using h1) (by simpa using h2)] at h
+                simp [Out.ofBytes] at h
+              · rw [RSide.consume_ok (by simpa using hl') (by simpa using h1) (by simpa using h2)] at h
+                simp only [Out.ofBytes, Prod.mk.injEq, Out.bytes.injEq, List.take_eq_nil_iff] at h
+                rcases h.2 with h3 | h3
+                · have : s.r.buf.avail.length = 0 := by omega
+                  exact List.length_eq_zero_iff.mp this
+                · exact h3
+          refine ⟨hav, ?_⟩
+          simp only [hav, List.isEmpty_nil, Bool.true_and, Bool.not_eq_true', Bool.not_eq_false] at hw
+          simpa using hw
+  · intro h
+    unfold SyncStream.step at h
+    simp only at h
+    split at h
+    · simp at h
+    · unfold RSide.fillBuf at h
+      simp only [RSide.clearObs] at h
+      by_cases hl : s.r.buf.lent = true
+      · simp [hl, Out.ofBytes] at h
+      · have hl' : s.r.buf.lent = false := by simpa using hl
+        by_cases hw : (s.r.buf.avail.isEmpty && !s.r.eof) = true
+        · simp [hl', hw, Out.ofBytes] at h
+        · simp only [hl', hw, if_false, Bool.false_eq_true, Out.ofBytes, Prod.mk.injEq, Out.bytes.injEq] at h
+          refine ⟨h.2, ?_⟩
+          simp only [h.2, List.isEmpty_nil, Bool.true_and, Bool.not_eq_true', Bool.not_eq_false] at hw
+          simpa using hw
+
+/-- **Write side, nothing lost / duplicated / reordered.** The bytes `write` accepted are, in order,
+the bytes that reached the inner stream followed by the bytes still buffered. -/
+theorem sync_write_fifo (base max : Nat) (rs : List RItem) (ws : List WItem) (ops : List Op) :
+    acceptedOf ops (run (State.new base max rs ws) ops).2 = (run (State.new base max rs ws) ops).1.w.sent ++ (run (State.new base max rs ws) ops).1.w.buf.avail := by
+  have hi := (Inv.new base max rs ws).run ops
+  have hf := run_frame ops (State.new base max rs ws)
+  rw [← hi.2.fifo, hf.2.1]
+  simp [State.new, WSide.new]
+
+/-- **A successful `flush_write_buf` sends exactly the unsent bytes** — in every reachable state,
+in particular after any number of failed or partial flushes: afterwards everything accepted has
+reached the inner stream, what this flush added is exactly what was still buffered, nothing else. -/
+theorem sync_flush_sends_unsent (base max : Nat) (rs : List RItem) (ws : List WItem) (ops : List Op)
+    (k n : Nat) (s' : State) :
+    step (run (State.new base max rs ws) ops).1 (.wflush k) = (s', .num n) →
+    s'.w.sent = (run (State.new base max rs ws) ops).1.w.sent ++ (run (State.new base max rs ws) ops).1.w.buf.avail ∧ s'.w.sent = s'.w.accepted ∧ s'.w.buf.avail = [] := by
+  intro h
+  generalize hs0 : (run (State.new base max rs ws) ops).1 = s at h ⊢
+  have hi : Inv (content rs) s := by rw [← hs0]; exact (Inv.new base max rs ws).run ops
+  have hw := hi.2.clearObs
+  have hacc := (step_frame s (.wflush k)).2.1
+  rw [h] at hacc
+  simp only [Out.acceptedOf, List.append_nil] at hacc
+  unfold SyncStream.step at h
+  simp only at h
+  split at h
+  · simp at h
+  · have hfl := hw.flush k
+    rcases hq : s.w.clearObs.flush k with ⟨w', res⟩
+    rw [hq] at h hfl
+    simp only [Prod.mk.injEq] at h
+    obtain ⟨hs, ho⟩ := h
+    cases res with
+    | none => simp [Out.ofDrive] at ho
+    | some r =>
+      cases r with
+      | ok m =>
+        have hfd := hfl.2 m rfl
+        subst hs
+        simp only at hacc ⊢
+        unfold Flushed at hfd
+        simp only at hfd
+        refine ⟨?_, hfd.1, by simp [Buf.avail, hfd.2.1]⟩
+        rw [hfd.1, hacc, hi.2.fifo]
+      | err e => simp [Out.ofDrive, Out.ofNum] at ho
+      | panic => simp [Out.ofDrive, Out.ofNum] at ho
+
+/-- **Write-side limit honoured:** the bytes waiting in the write buffer never exceed
+`max_buffer_size`; and as long as no flush has failed half-way (`pos = 0`) neither does the length of
+the buffer itself. (After a failed flush the `Vec` may be longer: `Cex.C12.sync_write_vec_exceeds_limit_counterexample`.) -/
+theorem sync_write_limit (base max : Nat) (rs : List RItem) (ws : List WItem) (ops : List Op) :
+    (run (State.new base max rs ws) ops).1.w.buf.avail.length ≤ max ∧ ((run (State.new base max rs ws) ops).1.w.buf.pos = 0 → (run (State.new base max rs ws) ops).1.w.buf.data.length ≤ max) := by
+  have hi := (Inv.new base max rs ws).run ops
+  have hf := run_frame ops (State.new base max rs ws)
+  have hm : (run (State.new base max rs ws) ops).1.w.max = max := by rw [hf.2.2.2.2.2]; rfl
+  have := hi.2.pend_le
+  rw [hm] at this
+  constructor
+  · simp only [Buf.avail, List.length_drop]; omega
+  · intro hp; omega
+
+/-- **Read-side bound the code really has:** the read buffer never holds more than
+`base_capacity + max_buffer_size - 1` bytes (it is *not* bounded by `max_buffer_size`:
+`Cex.C12.sync_read_limit_exceeded_counterexample`). -/
+theorem sync_read_limit_bound (base max : Nat) (rs : List RItem) (ws : List WItem) (ops : List Op) :
+    (run (State.new base max rs ws) ops).1.r.buf.data.length ≤ (run (State.new base max rs ws) ops).1.r.buf.cap ∧ (run (State.new base max rs ws) ops).1.r.buf.cap ≤ base + (max - 1) := by
+  have hi := (Inv.new base max rs ws).run ops
+  have hf := run_frame ops (State.new base max rs ws)
+  refine ⟨hi.1.len_le, ?_⟩
+  have := hi.1.cap_le
+  rw [hf.2.2.1, hf.2.2.2.1] at this
+  exact this
+
+/-! ### non-vacuity: the hypotheses are satisfiable on non-trivial runs -/
+
+/-- a read that would block, a short fill, a partial read, a fill across compaction, EOF -/
+example :
+    (run (State.new 4 64 [.d [1, 2, 3], .p, .d [4, 5, 6, 7, 8, 9], .z] [])
+      [.read 2, .fill 9, .read 2, .fill 1, .fill 9, .read 9, .fill 9, .fill 9, .read 9, .read 9]).2 =
+    [.err .wb, .num 3, .bytes [1, 2], .cancel, .panic, .err .wb, .panic, .panic, .err .wb, .err .wb] := by
+  decide
+
+example :
+    (run (State.new 4 64 [.d [1, 2, 3], .p, .d [4, 5, 6, 7, 8, 9], .z] [])
+      [.fill 9, .read 2, .fill 9, .read 9, .fill 9, .read 9, .fill 9, .read 9, .read 9]).2 =
+    [.num 3, .bytes [1, 2], .num 3, .bytes [3, 4, 5, 6], .num 3, .bytes [7, 8, 9], .num 0, .bytes [], .bytes []] := by
+  decide
+
+/-- a flush that fails after a partial write, and the retry that sends exactly the rest -/
+example :
+    (run (State.new 16 64 [] [.w 2, .e, .p, .w 1])
+      [.write [1, 2, 3, 4, 5], .wflush 9, .write [6], .wflush 9]).2 =
+    [.num 5, .err .other, .num 1, .num 4] ∧
+    (run (State.new 16 64 [] [.w 2, .e, .p, .w 1])
+      [.write [1, 2, 3, 4, 5], .wflush 9, .write [6], .wflush 9]).1.w.sent = [1, 2, 3, 4, 5, 6] := by
+  decide
+
+
+/-! ## 2. `AsyncStream` (poll-style adapter) -/
+
+section Async
+open Compio.PollAdapter
+
+/-- **Read side, nothing lost / duplicated / reordered**, for every interleaving of `poll_read`,
+`poll_read_uninit`, `poll_fill_buf`, `consume` by any tasks with Pending / short / error / EOF
+answers of the inner stream. -/
+theorem async_read_fifo (base max : Nat) (rs : List RItem) (ws : List WItem) (ops : List PollAdapter.Op) :
+    PollAdapter.takenOf ops (PollAdapter.run (PollAdapter.State.new base max rs ws) ops).2 ++
+        (PollAdapter.run (PollAdapter.State.new base max rs ws) ops).1.ar.r.buf.avail =
+      (PollAdapter.run (PollAdapter.State.new base max rs ws) ops).1.ar.r.delivered ∧
+    (PollAdapter.run (PollAdapter.State.new base max rs ws) ops).1.ar.r.delivered ++
+        (if (PollAdapter.run (PollAdapter.State.new base max rs ws) ops).1.ar.r.innerEof then []
+         else content (PollAdapter.run (PollAdapter.State.new base max rs ws) ops).1.ar.r.script) = content rs := by
+  have hi := (AInv.new base max rs ws).run ops
+  have hf := PollAdapter.run_frame ops (PollAdapter.State.new base max rs ws)
+  refine ⟨?_, hi.1.inv.cons⟩
+  rw [hi.1.inv.fifo, hf.1]
+  simp [PollAdapter.State.new, ARead.new, RSide.new]
+
+theorem async_read_prefix (base max : Nat) (rs : List RItem) (ws : List WItem) (ops : List PollAdapter.Op) :
+    PollAdapter.takenOf ops (PollAdapter.run (PollAdapter.State.new base max rs ws) ops).2 <+: content rs := by
+  have h := async_read_fifo base max rs ws ops
+  rw [← h.2, ← h.1]
+  simp only [List.append_assoc]
+  exact List.prefix_append _ _
+
+/-- at EOF (flag set, buffer drained) everything has been returned; guard: positive base capacity -/
+theorem async_read_eof_complete (base max : Nat) (rs : List RItem) (ws : List WItem) (ops : List PollAdapter.Op)
+    (hb : 0 < base) :
+    (PollAdapter.run (PollAdapter.State.new base max rs ws) ops).1.ar.r.eof = true →
+    (PollAdapter.run (PollAdapter.State.new base max rs ws) ops).1.ar.r.buf.avail = [] →
+    PollAdapter.takenOf ops (PollAdapter.run (PollAdapter.State.new base max rs ws) ops).2 = content rs := by
+  intro he ha
+  have hi := (AInv.new base max rs ws).run ops
+  have hf := PollAdapter.run_frame ops (PollAdapter.State.new base max rs ws)
+  have h := async_read_fifo base max rs ws ops
+  have hbase : (PollAdapter.run (PollAdapter.State.new base max rs ws) ops).1.ar.r.base = base := by
+    rw [hf.2.2.1]; rfl
+  have hie := hi.1.inv.eof_inner (by rw [hbase]; exact hb) he
+  rw [← h.2, ← h.1, ha, hie]
+  simp
+
+/-- **Write side, nothing lost / duplicated / reordered** -/
+theorem async_write_fifo (base max : Nat) (rs : List RItem) (ws : List WItem) (ops : List PollAdapter.Op) :
+    PollAdapter.acceptedOf ops (PollAdapter.run (PollAdapter.State.new base max rs ws) ops).2 =
+      (PollAdapter.run (PollAdapter.State.new base max rs ws) ops).1.aw.w.sent ++
+      (PollAdapter.run (PollAdapter.State.new base max rs ws) ops).1.aw.w.buf.avail := by
+  have hi := (AInv.new base max rs ws).run ops
+  have hf := PollAdapter.run_frame ops (PollAdapter.State.new base max rs ws)
+  rw [← hi.2.fifo, hf.2.1]
+  simp [PollAdapter.State.new, AWrite.new, WSide.new]
+
+/-- limits: pending write bytes `≤ max`; read buffer `≤ base + max - 1` -/
+theorem async_limits (base max : Nat) (rs : List RItem) (ws : List WItem) (ops : List PollAdapter.Op) :
+    (PollAdapter.run (PollAdapter.State.new base max rs ws) ops).1.aw.w.buf.avail.length ≤ max ∧
+    (PollAdapter.run (PollAdapter.State.new base max rs ws) ops).1.ar.r.buf.data.length ≤ base + (max - 1) := by
+  have hi := (AInv.new base max rs ws).run ops
+  have hf := PollAdapter.run_frame ops (PollAdapter.State.new base max rs ws)
+  have hm : (PollAdapter.run (PollAdapter.State.new base max rs ws) ops).1.aw.w.max = max := by
+    rw [hf.2.2.2.2.2]; rfl
+  have h1 := hi.2.pend_le
+  rw [hm] at h1
+  have h2 := hi.1.inv.cap_le
+  rw [hf.2.2.1, hf.2.2.2.1] at h2
+  have h3 := hi.1.inv.len_le
+  constructor
+  · simp only [Buf.avail, List.length_drop]; omega
+  · exact Nat.le_trans h3 h2
+
+/-- **`poll_flush` / `poll_close` returning `Ready(Ok(()))` mean everything accepted has reached the
+inner stream** — provided the caller never calls `poll_write` while the in-flight flush future is
+suspended in the inner stream's `flush()` (`GuardedRun`; without the guard this is false: finding
+F15, `Cex.C12.async_stale_flush_counterexample`). In particular `poll_close` flushes before it
+shuts the inner stream down. -/
+theorem async_flush_complete (base max : Nat) (rs : List RItem) (ws : List WItem) (ops : List PollAdapter.Op)
+    (hg : GuardedRun (PollAdapter.State.new base max rs ws) ops) (t : Nat) :
+    ((PollAdapter.step (PollAdapter.run (PollAdapter.State.new base max rs ws) ops).1 (.pfl t)).2 = .unit →
+      Flushed (PollAdapter.step (PollAdapter.run (PollAdapter.State.new base max rs ws) ops).1 (.pfl t)).1.aw.w) ∧
+    ((PollAdapter.step (PollAdapter.run (PollAdapter.State.new base max rs ws) ops).1 (.pcl t)).2 = .unit →
+      Flushed (PollAdapter.step (PollAdapter.run (PollAdapter.State.new base max rs ws) ops).1 (.pcl t)).1.aw.w) := by
+  have hi := (AInv.new base max rs ws).run ops
+  have hc : Clean (PollAdapter.run (PollAdapter.State.new base max rs ws) ops).1.aw :=
+    Clean.run ops (AInv.new base max rs ws) (by intro t ht; cases ht) hg
+  generalize (PollAdapter.run (PollAdapter.State.new base max rs ws) ops).1 = s at hi hc
+  have hw0 : WInv ({ s.aw with w := s.aw.w.clearObs } : AWrite).w := hi.2.clearObs
+  have hc0 := hc.clearObs
+  constructor
+  · intro ho
+    simp only [PollAdapter.step] at ho ⊢
+    rw [(AWrite.call_w _ _ _ _).2] at ho
+    rw [(AWrite.call_w _ _ _ _).1]
+    exact (AWrite.pollFlush_clean t hc0 hw0).2 ho
+  · intro ho
+    simp only [PollAdapter.step] at ho ⊢
+    rw [(AWrite.call_w _ _ _ _).2] at ho
+    rw [(AWrite.call_w _ _ _ _).1]
+    exact (AWrite.pollClose_clean t hc0 hw0).2 ho
+
+/-- **Waker law.** In every reachable state and for every next call:
+(1) if the call returns Pending, the inner stream is parked with a waker snapshot containing the caller;
+(2) if the in-flight future of the half completed during the call (the inner stream woke the
+    snapshot it held), then every task whose latest call of some entry point of that half had
+    returned Pending — through whichever of the three entry points — is among the tasks woken. -/
+theorem async_waker_law (base max : Nat) (rs : List RItem) (ws : List WItem) (ops : List PollAdapter.Op)
+    (op : PollAdapter.Op) :
+    (∀ e t, op.entry = some (e, t) →
+      (PollAdapter.step (PollAdapter.run (PollAdapter.State.new base max rs ws) ops).1 op).2 = .pending →
+      ∃ snap, parkedAfterOp (PollAdapter.step (PollAdapter.run (PollAdapter.State.new base max rs ws) ops).1 op).1 op
+                = some snap ∧ t ∈ snap) ∧
+    ((eventAfter (PollAdapter.step (PollAdapter.run (PollAdapter.State.new base max rs ws) ops).1 op).1 op).1 = true →
+      ∀ e t, (owedBefore (PollAdapter.run (PollAdapter.State.new base max rs ws) ops).1 op).get e = some t →
+        t ∈ (eventAfter (PollAdapter.step (PollAdapter.run (PollAdapter.State.new base max rs ws) ops).1 op).1 op).2) := by
+  have hw := (WakeOK.new base max rs ws).run ops
+  exact ⟨fun e t he hp => step_pending_registered hw op e t he hp, (hw.step op).2⟩
+
+/-- the obligations really are what the outputs say: after a run, entry point `e` of the read half
+is owed to task `t` exactly when … the last call of `e` returned Pending (one step) -/
+theorem async_owed_is_pending (s : PollAdapter.State) (op : PollAdapter.Op) (e : Entry) (t : Nat)
+    (he : op.entry = some (e, t)) (hp : (PollAdapter.step s op).2 = .pending) :
+    (owedAfterOp (PollAdapter.step s op).1 op).get e = some t :=
+  step_pending_owed s op e t he hp
+
+/-- **Fuel independence of the model's retry loops** (`loop { … WouldBlock ⇒ poll the future … }` of the
+entry points): a result reached within the fuel is the result for any larger fuel; `hang` (fuel
+exhausted — the real code would spin) is never produced on the sampled cases of the harness. -/
+theorem async_loops_fuel_independent (e : Entry) (f : RSide → RSide × Res Bytes) (src : Bytes) (n : Nat) :
+    (∀ a : ARead, (a.pollLoop e f n).2 ≠ .hang → a.pollLoop e f (n + 1) = a.pollLoop e f n) ∧
+    (∀ a : AWrite, (a.writeLoop src n).2 ≠ .hang → a.writeLoop src (n + 1) = a.writeLoop src n) :=
+  ⟨ARead.pollLoop_stable e f n, AWrite.writeLoop_stable src n⟩
+
+/-! ### non-vacuity -/
+
+/-- two tasks Pending on two entry points of the read half, both woken when the inner read completes -/
+example :
+    (PollAdapter.run (PollAdapter.State.new 4 64 [.p, .p, .d [1, 2, 3]] [])
+      [.pr 0 2, .pfb 1, .pr 0 2, .pfb 1]).2 = [.pending, .pending, .bytes [1, 2], .bytes [3]] ∧
+    (PollAdapter.run (PollAdapter.State.new 4 64 [.p, .p, .d [1, 2, 3]] [])
+      [.pr 0 2, .pfb 1, .pr 0 2]).1.ar.r.woken = [0, 1] := by
+  decide
+
+/-- a guarded run with a Pending inner write and a Pending inner flush: the flush completes everything -/
+example :
+    GuardedRun (PollAdapter.State.new 4 64 [] [.p, .w 2, .w 9, .p])
+      [.pw 0 [1, 2, 3], .pfl 0, .pfl 0, .pfl 0] ∧
+    (PollAdapter.run (PollAdapter.State.new 4 64 [] [.p, .w 2, .w 9, .p])
+      [.pw 0 [1, 2, 3], .pfl 0, .pfl 0, .pfl 0]).2 = [.num 3, .pending, .pending, .unit] ∧
+    (PollAdapter.run (PollAdapter.State.new 4 64 [] [.p, .w 2, .w 9, .p])
+      [.pw 0 [1, 2, 3], .pfl 0, .pfl 0, .pfl 0]).1.aw.w.sent = [1, 2, 3] := by
+  decide
+
+end Async
+
 end Compio.Props.C12
